@@ -42,7 +42,8 @@ FOCUS = {
                "mesh_selectors": 2.0, "mesh_finder": 1.0,
                "basis_get_dofs": 2.0},
     "assembly": {"mk_form": 2.0, "assemble": 7.0, "mk_vec": 1.5,
-                 "basis_derive": 1.0, "basis_observe": 1.0},
+                 "basis_derive": 1.0, "basis_observe": 1.0,
+                 "mk_composite": 1.5},
 }
 
 
